@@ -199,8 +199,9 @@ CLAIMS = {
 }
 
 TECHNIQUE = ("Lean 4 machine-checked proof over a model of the code; tie = translators (funfit.py, dataset tables, vector "
-             "arithmetic regenerated into Lean and proved equal to the model) + differential correspondence of the native "
-             "model driver with /repo")
+             "arithmetic, the loops of the window strategies regenerated into Lean and proved equal to the model) + "
+             "differential correspondence of the native model driver with /repo on generated inputs, memory layouts, "
+             "object histories, thread schedules and interpreter settings")
 
 NOT_YET = {
 }
@@ -218,6 +219,11 @@ def main():
         if pid not in CLAIMS or pid not in BUILT:
             continue
         ref, text, note = CLAIMS[pid]
+        if pid in ("C04", "C05", "C06", "C07"):
+            text += (" The loops of the four window strategies are also modelled as loops (TWV.Model.RfaImp: the array z "
+                     "overwritten in program order), proved equal to the closed form the theorems are about "
+                     "(TWV.Properties.RfaImp), regenerated from rfa.py's AST by translator T4 and proved equal to that model on "
+                     "every run (TWV.Tie.RfaLoops); the driver answers every case with both models.")
         checks.append({
             "property_id": pid,
             "quick_cmd": f"./check {pid} --tier quick",
